@@ -35,6 +35,12 @@ func runC01(c *core.Ctx) {
 	h.stepDownOnHigherTerm("C01.5 step-down")
 	h.leaderReleaseCleansUp("C01.6 ex-leader-stops-acting", "update-channel")
 	h.stateDriver("C01.7 state-driver")
+	c.Clause("C01.8 the quorum a candidate counts is that of the configuration of its log: configs.Latest follows every adoption and falls back, when an entry is cut off, to the configuration saved at that adoption")
+	h.adoptAndRevert("C01.8 adopt-revert")
+	h.configSetters("C01.8b config-setters")
+	c.Clause("C01.9 a vote is counted for the voter that was asked: the handshake on every new connection compares cluster id and node id")
+	h.listenerRefusesMismatch("C01.9 listener")
+	h.dispatcherHandsOver("C01.10 dispatcher")
 }
 
 func runC17(c *core.Ctx) {
@@ -66,4 +72,7 @@ func runC17(c *core.Ctx) {
 	h.configActionProgress("C17.9 membership-progress", "progress")
 	h.commitReadyReevaluates("C17.9b commit-ready-reevaluates")
 	h.replicationLearnsConfig("C17.11 replication-learns-config")
+	h.transferReplyMeaning("C17.9c transfer-end-reevaluates")
+	c.Clause("C17.12 a node dropped from the configuration cannot depose the leader through what its replication had already queued")
+	h.removedReplicationMuted("C17.12 removed-muted")
 }
